@@ -272,6 +272,7 @@ func TestC14Signatures(t *testing.T) {
 			fail("C14 harness: put: %s", o)
 		}
 		nvec := rapid.IntRange(1, 3).Draw(rt, "vectors")
+		listedTwice := map[int]bool{}
 		kn := 0
 		repsArg := []any{}
 		for v := 0; v < nvec; v++ {
@@ -285,6 +286,13 @@ func TestC14Signatures(t *testing.T) {
 				batch = append(batch, k.PublicKey().Bytes())
 			}
 			w.members = append(w.members, ms)
+			// one vector in four lists its first member once more at the end (a node re-sent by a later batch): it is
+			// still one member, its signature counts once however often the key is listed
+			if rapid.IntRange(0, 3).Draw(rt, "firstMemberListedTwice") == 0 {
+				batch = append(batch, ms[0].PublicKey().Bytes())
+				listedTwice[v] = true
+				h.Mark("member-listed-twice-in-a-vector")
+			}
 			rep := rapid.IntRange(1, 4).Draw(rt, "rep")
 			w.reps = append(w.reps, rep)
 			repsArg = append(repsArg, rep)
@@ -310,6 +318,9 @@ func TestC14Signatures(t *testing.T) {
 				if v < nvec {
 					for _, k := range w.members[v] {
 						want = append(want, "x"+hex(k.PublicKey().Bytes()))
+					}
+					if listedTwice[v] {
+						want = append(want, "x"+hex(w.members[v][0].PublicKey().Bytes()))
 					}
 				}
 				if len(got) != len(want) {
